@@ -1,8 +1,164 @@
-/- Driver operations of the Ctx model (stub until the model lands). -/
+/-
+  Driver operations of the TypeContext model (property C16).  Not part of any theorem.
+
+    ctx.run     {"ops":[op…]}                      → {"concrete":[out…], "spec":[out…], "valid":bool}
+    ctx.keyops  {"key":key}                        → {"unwrap":key, "fwd":key, "isRef":bool}
+    ctx.enum    {"keys":[key…], "prefix":[op…], "depth":n}
+                                                   → {"concrete":codes, "spec":codes|null (= same), "n":count}
+
+  key  = ["base",b] | ["nt",b] | ["al",b] | ["sa",b] | ["final",b] | ["ref",arg,module]   (b = "int"|"str"|"Foo")
+  op   = ["ins",key,v] | ["item",key] | ["get",key,default] | ["in",key]
+  out  = null | {"ok":v} | {"err":"key"} | {"default":d} | true | false | {"err":"recursion"}
+
+  `ctx.enum` walks, in depth-first pre-order, every admissible extension of `prefix` by 1..depth
+  operations over `keys` (canonical order of the operations at a node: fresh insertions, `[]`,
+  `get`, `in` of stored keys, each in the order of `keys`; the operation at position p (0-based)
+  inserts the value p+1 / passes the default -(p+1)) and emits one character per node: the code of
+  the output of the node's last operation (harness/props/c16.py walks the same tree on the real
+  `TypeContext`).
+-/
 import TypelibModel.Drv.Core
+import TypelibModel.Model.Ctx
 open Lean
 namespace Typelib.Drv
+open Typelib.TCtx
 
-def handleCtx (_st : St) (_op : String) (_j : Json) : Option (Except String (St × Json)) := none
+def baseOfString : String → Except String Base
+  | "int" => .ok .int
+  | "str" => .ok .str
+  | "Foo" => .ok .foo
+  | s => .error s!"base {s}"
+
+def baseToString : Base → String
+  | .int => "int" | .str => "str" | .foo => "Foo"
+
+def baseCap : Base → String
+  | .int => "Int" | .str => "Str" | .foo => "Foo"
+
+def wrapSuffix : Wrap → String
+  | .nt => "NT" | .al => "Al" | .sa => "SA"
+
+def wrapTag : Wrap → String
+  | .nt => "nt" | .al => "al" | .sa => "sa"
+
+def nameToString : FArg → String
+  | .base b => baseToString b
+  | .wrapper b w => baseCap b ++ wrapSuffix w
+  | .final => "Final"
+
+def allNames : List FArg :=
+  [FArg.final] ++ [Base.int, .str, .foo].flatMap fun b => [FArg.base b, .wrapper b .nt, .wrapper b .al, .wrapper b .sa]
+
+def nameOfString (s : String) : Except String FArg :=
+  match allNames.find? (fun n => nameToString n == s) with
+  | some n => .ok n
+  | none => .error s!"forward arg {s}"
+
+def modToString : Mod → String
+  | .builtins => "builtins" | .keys => "c16_keys" | .typing => "typing"
+
+def modOfString : String → Except String Mod
+  | "builtins" => .ok .builtins
+  | "c16_keys" => .ok .keys
+  | "typing" => .ok .typing
+  | s => .error s!"module {s}"
+
+def keyOfJson (j : Json) : Except String Key :=
+  match j with
+  | .arr a =>
+    match a.toList with
+    | [.str "base", .str b] => do pure (.base (← baseOfString b))
+    | [.str "nt", .str b] => do pure (.named (← baseOfString b) .nt)
+    | [.str "al", .str b] => do pure (.named (← baseOfString b) .al)
+    | [.str "sa", .str b] => do pure (.named (← baseOfString b) .sa)
+    | [.str "final", .str b] => do pure (.final (← baseOfString b))
+    | [.str "ref", .str n, .str m] => do pure (.ref (← nameOfString n) (← modOfString m))
+    | _ => .error s!"bad key {j}"
+  | _ => .error s!"bad key {j}"
+
+def keyToJson : Key → Json
+  | .base b => .arr #[.str "base", .str (baseToString b)]
+  | .named b w => .arr #[.str (wrapTag w), .str (baseToString b)]
+  | .final b => .arr #[.str "final", .str (baseToString b)]
+  | .ref n m => .arr #[.str "ref", .str (nameToString n), .str (modToString m)]
+
+def ctxOpOfJson (j : Json) : Except String (Op Key Int) :=
+  match j with
+  | .arr a =>
+    match a.toList with
+    | [.str "ins", k, v] => do pure (.insert (← keyOfJson k) (← jInt v))
+    | [.str "item", k] => do pure (.getitem (← keyOfJson k))
+    | [.str "get", k, d] => do pure (.get (← keyOfJson k) (← jInt d))
+    | [.str "in", k] => do pure (.contains (← keyOfJson k))
+    | _ => .error s!"bad ctx op {j}"
+  | _ => .error s!"bad ctx op {j}"
+
+def outToJson : Out Int → Json
+  | .unit => .null
+  | .ok v => Json.mkObj [("ok", jI v)]
+  | .keyError => Json.mkObj [("err", .str "key")]
+  | .dflt d => Json.mkObj [("default", jI d)]
+  | .bool b => .bool b
+  | .recursionError => Json.mkObj [("err", .str "recursion")]
+
+def outCode : Out Int → Char
+  | .unit => 'U'
+  | .ok v => if 0 ≤ v ∧ v ≤ 9 then Char.ofNat (48 + v.toNat) else '#'
+  | .keyError => 'K'
+  | .dflt _ => 'D'
+  | .bool true => 'T'
+  | .bool false => 'F'
+  | .recursionError => 'R'
+
+/-- The operations the enumeration tries at a node, in canonical order. -/
+def enumOps (keys : List Key) (S : Spec Key Int) (pos : Nat) : List (Op Key Int) :=
+  (keys.filter (fun k => !(mem S k))).map (fun k => Op.insert k (Int.ofNat (pos + 1)))
+  ++ keys.map (fun k => Op.getitem k)
+  ++ keys.map (fun k => Op.get k (-(Int.ofNat (pos + 1))))
+  ++ (keys.filter (fun k => mem S k)).map (fun k => Op.contains k)
+
+structure EnumAcc where
+  conc : String := ""
+  spec : String := ""
+  n : Nat := 0
+
+def enumWalk (keys : List Key) : Nat → Ctx Key Int → Spec Key Int → Nat → EnumAcc → EnumAcc
+  | 0, _, _, _, acc => acc
+  | d + 1, C, S, pos, acc =>
+    (enumOps keys S pos).foldl (fun acc op =>
+      let rc := stepC keyOps C op
+      let rs := stepS keyOps S op
+      let acc := { conc := acc.conc.push (outCode rc.2), spec := acc.spec.push (outCode rs.2), n := acc.n + 1 }
+      enumWalk keys d rc.1 rs.1 (pos + 1) acc) acc
+
+def handleCtx (st : St) (op : String) (j : Json) : Option (Except String (St × Json)) :=
+  match op with
+  | "ctx.run" => some do
+    let opsJ ← j.getObjValAs? (Array Json) "ops"
+    let ops ← opsJ.toList.mapM ctxOpOfJson
+    let rc := runC keyOps ([] : Ctx Key Int) ops
+    let rs := runS keyOps ([] : Spec Key Int) ops
+    pure (st, Json.mkObj [
+      ("concrete", .arr (rc.2.map outToJson).toArray),
+      ("spec", .arr (rs.2.map outToJson).toArray),
+      ("valid", .bool (okOps keyOps ([] : Spec Key Int) ops))])
+  | "ctx.keyops" => some do
+    let k ← keyOfJson (← j.getObjVal? "key")
+    pure (st, Json.mkObj [
+      ("unwrap", keyToJson (keyOps.unwrap k)),
+      ("fwd", keyToJson (keyOps.fwd k)),
+      ("isRef", .bool (keyOps.isRef k))])
+  | "ctx.enum" => some do
+    let keysJ ← j.getObjValAs? (Array Json) "keys"
+    let keys ← keysJ.toList.mapM keyOfJson
+    let preJ ← j.getObjValAs? (Array Json) "prefix"
+    let pre ← preJ.toList.mapM ctxOpOfJson
+    let depth ← j.getObjValAs? Nat "depth"
+    if !(okOps keyOps ([] : Spec Key Int) pre) then throw "ctx.enum: inadmissible prefix"
+    let rc := runC keyOps ([] : Ctx Key Int) pre
+    let rs := runS keyOps ([] : Spec Key Int) pre
+    let acc := enumWalk keys depth rc.1 rs.1 pre.length {}
+    pure (st, Json.mkObj [("concrete", .str acc.conc), ("spec", if acc.spec == acc.conc then .null else .str acc.spec), ("n", jN acc.n)])
+  | _ => none
 
 end Typelib.Drv
